@@ -169,8 +169,8 @@ def case_strategy():
         names = H.class_names(h) * 3 + ["object", "object", "PA", "PB", "int", "str"]
         cls = st.sampled_from(names)
         npos = draw(st.integers(1, 3))
-        kwpool = ["k0", "k1"]
-        use_kw = draw(st.integers(0, 3)) == 0
+        kwpool = ["k0", "k1", "k2"]
+        use_kw = draw(st.integers(0, 2)) == 0
         nm = draw(st.integers(1, 7))
         methods = []
         for i in range(nm):
@@ -184,9 +184,9 @@ def case_strategy():
             pos = [{"name": f"a{j}", "ann": ["cls", draw(cls)]} for j in range(ar)]
             kw = []
             if use_kw:
-                for k in kwpool:
-                    if draw(st.integers(0, 2)) == 0:
-                        kw.append({"name": k, "ann": ["cls", draw(cls)]})
+                for k in draw(st.permutations(kwpool)):  # declaration order differs between methods
+                    if draw(st.integers(0, 2)) != 2:
+                        kw.append({"name": k, "ann": ["cls", draw(cls)], "opt": draw(st.integers(0, 3)) == 0})
             methods.append(
                 {"id": i, "pos": pos, "kw": kw, "prio": draw(st.sampled_from([0, 0, 0, 1, -1, 2]))}
             )
@@ -208,7 +208,8 @@ def case_strategy():
             if draw(st.integers(0, 5)):
                 m = draw(st.sampled_from(methods))
                 args = [draw(st.sampled_from(fitting(p["ann"]))) for p in m["pos"]]
-                kws = {p["name"]: draw(st.sampled_from(fitting(p["ann"]))) for p in m["kw"]}
+                kws = {p["name"]: draw(st.sampled_from(fitting(p["ann"]))) for p in m["kw"]
+                       if not p.get("opt") or draw(st.booleans())}
                 if kws and draw(st.integers(0, 7)) == 0:
                     kws.pop(sorted(kws)[0])
             else:
